@@ -137,6 +137,21 @@ def run(tier, seed):
                     return jsonpath.patch.apply(json.loads(json.dumps(ops)), json.loads(json.dumps(DOC)), unicode_escape="--no-unicode-escape" not in g, uri_decode=ud)
 
                 case("patch", [pf], lib, None, flags, doc, fout, dbg, f"patch:{k}")
+        # documents in the encodings json.loads detects from bytes (the library reads the file in binary)
+        for enc in ("utf-8-sig", "utf-16", "utf-32"):
+            path = os.path.join(tmp, f"doc_{enc}.json")
+            with open(path, "wb") as fd:
+                fd.write(json.dumps(DOC).encode(enc))
+            code, out, err, tb = run_main(["path", "-q", "$.a[*].b", "-f", path])
+            if code == 0 and out == json.dumps([1, 2]) and not tb:
+                rec.ok(("encoding", enc))
+            else:
+                rec.fail(f"encoding:{enc}", f"json path -q '$.a[*].b' -f <document encoded as {enc}>: exit {code}, stdout {out[:60]!r}, stderr {err[:200]!r}; jsonpath.findall on the same file object returns [1, 2]", "sys.exit(2)")
+            code, out, err, tb = run_main(["pointer", "-p", "/a/0/b", "-f", path])
+            if code == 0 and out == "1" and not tb:
+                rec.ok(("encoding-pointer", enc))
+            else:
+                rec.fail(f"encoding-pointer:{enc}", f"json pointer -p /a/0/b -f <document encoded as {enc}>: exit {code}, stdout {out[:60]!r}, stderr {err[:200]!r}", "sys.exit(2)")
         badpatch = write("badpatch.json", "[{")
         case("patch", [badpatch], lambda: (_ for _ in ()).throw(ValueError()), None, {"global": [], "sub": []}, good, False, False, "patch:malformed")
         # a few real subprocess runs
